@@ -99,8 +99,13 @@ def _iterdir(self):
     return iter([self / n for n in names])
 
 
+def _glob(self, pattern):
+    import fnmatch
+    return iter([p for p in _iterdir(self) if fnmatch.fnmatchcase(p.name, pattern)])
+
+
 for _name, _fn in dict(mkdir=_mkdir, touch=_touch, exists=_exists, is_file=_is_file, is_dir=_is_dir, unlink=_unlink,
-                       iterdir=_iterdir).items():
+                       iterdir=_iterdir, glob=_glob).items():
     setattr(P, _name, _fn)
 
 
@@ -305,3 +310,63 @@ def crash_workload__twin(k: int, a: int, b: int, share2: bool, share3: bool, res
     post: _ == True
     """
     return not crash_workload(k, a, b, share2, share3, restore_first)
+
+
+NMAX = int(os.environ.get('VH_NMAX', '12'))
+
+
+def _pick(x, lo, hi):
+    while hi - lo > 1:
+        mid = (lo + hi) // 2
+        if x < mid:
+            hi = mid
+        else:
+            lo = mid
+    return lo
+
+
+def _many_body(n, again):
+    global FS
+    FS = MemFS(-1)
+    models = {i: Mod(i, 100 + i) for i in range(1, n + 1)}
+    for i in range(1, n + 1):
+        _store(_db(), models[i])
+        if not _complete(models[i], _retrieve(_db(), models[i])):
+            return False
+    _store(_db(), models[again])
+    csvs = [k for k in FS.files if k.startswith('/db/.datasets/data') and k.endswith('.csv')]
+    if len(csvs) != n:
+        return False
+    for j in range(1, n + 1):
+        if not _complete(models[j], _retrieve(_db(), models[j])):
+            return False
+    return True
+
+
+def many_datasets(n: int, again: int) -> bool:
+    """
+    n models with pairwise different datasets are stored one after the other (a fresh database object each time, no
+    crash); then model `again` is stored a second time.  Every committed entry must still be retrievable with its own
+    dataset (shared dataset files are numbered, data1.csv ... dataN.csv: a new dataset never takes the file of an
+    earlier one, also beyond nine).  n and again are fixed per path by bisection; the real protocol code then runs
+    on the in-memory file system outside tracing.
+    pre: 1 <= n <= NMAX and 1 <= again <= n
+    post: _ == True
+    """
+    try:
+        from crosshair.tracers import NoTracing
+    except ImportError:
+        import contextlib as _c
+        NoTracing = _c.nullcontext
+    cn = _pick(n, 1, NMAX + 1)
+    ca = _pick(again, 1, cn + 1)
+    with NoTracing():
+        return _many_body(cn, ca)
+
+
+def many_datasets__twin(n: int, again: int) -> bool:
+    """
+    pre: 1 <= n <= NMAX and 1 <= again <= n
+    post: _ == True
+    """
+    return not many_datasets(n, again)
